@@ -111,6 +111,42 @@ def check(text):
         return (rp, "deepcopy differs")
     if py_gen_text(d, False) != g0:
         return (rp, "deep copy generates different C")
+    # the same with weak references to the nodes alive (a WeakKeyDictionary side table is why the node
+    # classes carry a __weakref__ slot): the weak reference must neither end up in the copy nor break it
+    import weakref
+    nodes = []
+
+    def walk(n):
+        nodes.append(n)
+        for _, c in n.children():
+            walk(c)
+
+    try:
+        walk(ast)
+    except RecursionError:
+        nodes = []
+    refs = [weakref.ref(n) for n in nodes[:2000]]
+    side = weakref.WeakKeyDictionary((n, i) for i, n in enumerate(nodes[:200]))
+    for proto in (2, pickle.HIGHEST_PROTOCOL):
+        try:
+            pw = pickle.loads(pickle.dumps(ast, protocol=proto))
+        except RecursionError:
+            continue
+        except Exception as e:  # noqa
+            return (rp, "pickle protocol %d of a tree whose nodes are weakly referenced raised %s: %s" % (proto, type(e).__name__, e))
+        if not same(ast, pw, True):
+            return (rp, "pickle protocol %d of a weakly referenced tree rebuilt a different tree" % proto)
+    try:
+        dw = copy.deepcopy(ast)
+        if not same(ast, dw, True):
+            return (rp, "deepcopy of a weakly referenced tree differs")
+    except RecursionError:
+        pass
+    except Exception as e:  # noqa
+        return (rp, "deepcopy of a tree whose nodes are weakly referenced raised %s: %s" % (type(e).__name__, e))
+    if repr(ast) != rp:
+        return (rp, "repr changes when weak references to the nodes exist")
+    del refs, side
     # independence: no mutable object (node, list, Coord, ...) reachable from the copy is reachable from
     # the original, and mutating the copy leaves the original alone
     ids = mutable_ids(ast)
@@ -180,7 +216,7 @@ def _dump_of(t):
 
 def run(ctx):
     texts = [t for t in progs.pool(ctx, scale=0.3) if len(t) < 5000] + EXTRA
-    ctx.rule(progs.RULE + "; plus programs with quotes, backslashes and non-ASCII characters in literals, empty blocks and absent children, and coordinates beyond 16 / 32 bits (a 70 000-character line, line numbers up to 2^40, a 600-character file name): eval(repr(ast)) in the namespace of c_ast (structural equality, generated text), pickle protocols 2..HIGHEST and copy.deepcopy (equality incl. coordinates, generated text, no mutable object - node, list or coordinate - shared with the original, mutation independence); repr text compared with the Lean model of __repr__ for ASCII programs; repr / pickle / deepcopy of one AST from 4 threads at once (switch interval 1e-6 s) must equal the single-threaded results")
+    ctx.rule(progs.RULE + "; plus programs with quotes, backslashes and non-ASCII characters in literals, empty blocks and absent children, and coordinates beyond 16 / 32 bits (a 70 000-character line, line numbers up to 2^40, a 600-character file name): eval(repr(ast)) in the namespace of c_ast (structural equality, generated text), pickle protocols 2..HIGHEST and copy.deepcopy (equality incl. coordinates, generated text, no mutable object - node, list or coordinate - shared with the original, mutation independence), again with weak references to every node alive (weakref.ref and a WeakKeyDictionary side table); repr text compared with the Lean model of __repr__ for ASCII programs; repr / pickle / deepcopy of one AST from 4 threads at once (switch interval 1e-6 s) must equal the single-threaded results")
     res = pmap(check, texts)
     ascii_idx = [i for i, t in enumerate(texts) if res[i] is not None and t.isascii()]
     dumps = pmap(_dump_of, [texts[i] for i in ascii_idx])
